@@ -10,7 +10,12 @@ def teb_bmc(cap, nops, tier):
              models=['m_transit.c', 'm_throw.c'], unwind=max(nops + 2, 9), paths=True, tier=tier,
              bounds='initial capacity %d, every sequence of %d operations (push with expansion / pop / request+try shrink) from the initial state' % (cap, nops),
              what='K2 bounded runs: FIFO across repeated expansion and shrink cycles')
-QUERIES = [teb_ind(1, 'quick'), teb_ind(2, 'quick'), teb_bmc(1, 4, 'thorough'), teb_ind(4, 'thorough')]
+def teb_life(icap, tier):
+    return Q('K2_teb_life_icap%d' % icap, 'C03_transit_buffer.cpp', 'h_teb_life', defines=['CAP=%d' % (4 * icap), 'ICAP=%d' % icap], cxx=['-fno-inline'], cuts=TE_CUTS,
+             models=['m_transit.c', 'm_throw.c'], unwind=4 * icap + 4, paths=False, tier=tier,
+             bounds='requested initial capacity %d (real constructor; need not be a power of two), fixed life cycle: fill past capacity (growth), drain, request+try shrink, refill to capacity, grow again, drain; symbolic contents' % icap,
+             what='K2 life cycle: FIFO content exact at every pop, growth keeps order, the shrink takes effect (capacity back to the starting one) and the shrunk ring holds a full load without slot aliasing')
+QUERIES = [teb_life(3, 'quick'), teb_life(5, 'quick'), teb_life(6, 'quick'), teb_life(8, 'thorough'), teb_ind(1, 'quick'), teb_ind(2, 'quick'), teb_bmc(1, 4, 'thorough'), teb_ind(4, 'thorough')]
 # K5: the real _poll()/_exit() loops over the kernel contracts (harness/C07_exit.cpp, queries defined in C07.py)
 import importlib.util as _iu, os as _os
 _s7 = _iu.spec_from_file_location('c07', _os.path.join(_os.path.dirname(__file__), 'C07.py')); _m7 = _iu.module_from_spec(_s7); _m7.Q = Q; _s7.loader.exec_module(_m7)
